@@ -13,6 +13,8 @@ import json, time
 from concurrent.futures import ProcessPoolExecutor
 from .common import *
 from . import c11_models as M
+from . import c11_gen
+from .c11_gen import regenerate      # setup.sh regenerates Gen/TrainGen.v through this name
 
 MAXLEN = 4      # the property's sequence length; the exploration goes on until no new abstract state appears
 CAP = 12        # safety cap on the exploration depth (closure is reached at depth 5..8 on every prototype)
@@ -206,7 +208,9 @@ def explore(args):
 
 
 def run(ctx):
+    gen_rejected = c11_gen.regenerate(ctx)
     built = ctx.build()
+    ctx.extra['generated_model'] = c11_gen.status(gen_rejected, built)
     protos = M.PROTOS_QUICK if ctx.quick else M.PROTOS_THOROUGH
     ctx.rule = ('prototypes %s; breadth-first over ALL sequences of length <= %d (continued until no new abstract state appears: closure) of the op alphabet {train_nas_only, train_net_only, train_net_and_nas, '
                 'train_features/rf/dilation/discrete_cost (PIT) / train_selection (SuperNet) := T/F, update_softmax_options with each single option '
@@ -282,6 +286,7 @@ def run(ctx):
                 ctx.corr += n
                 bad += [si * SH + i for i in idx]
             ctx.corr += sum(1 for _, _, t in meta if t['obs'] is not None)     # the grad pattern is a second observable of a fb transition
+            mism += c11_gen.correspond(ctx, defs, res, ivals, checks, meta, bad)      # the model GENERATED from the source on this run
             if bad:
                 # details of the first disagreements: let the model print its view
                 show = bad[:12]
@@ -305,7 +310,9 @@ def run(ctx):
             ctx.notes.append('model evaluation failed: ' + str(ex)[-800:])
 
     if not ctx.violations:   # a printed KNOWN-FINDING must not hide a broken proof / model / correspondence
-        if not built:
+        if c11_gen.report(ctx, gen_rejected, built):
+            pass
+        elif not built:
             ctx.violation('proof-broken', {'theorems': [o[0] for o in ctx.obligations if not o[1]], 'log': getattr(ctx, 'broken_log', '')[-3000:]}, 'Props/C11.v no longer checks', no_input=True)
         elif not model_ok:
             ctx.violation('model-eval-broken', {'notes': ctx.notes}, 'the model could not be evaluated', no_input=True)
